@@ -504,6 +504,68 @@ static std::string run_case(const std::vector<std::string>& t) {
   return out;
 }
 
+// ---------------------------------------------------------------- dht::DhtSearch unit (case lines "S <target> <op>*")
+//   a,id,ip,port  add_contact      g  get_contact      s,<id|first|last>,<0|1>  node_status      t  trim(true)      b  start()
+#include "dht/transactions/dht_search.h"
+static char sstat(const DhtNode* n) { return n->is_active() ? 'A' : n->is_good() ? 'G' : n->is_bad() ? 'B' : 'N'; }
+static std::string sdump(dht::DhtSearch* s) {
+  auto& m = (dht::DhtSearch::base_type&)(*s);   // C-style cast: the base is protected
+  char buf[160];
+  snprintf(buf, sizeof buf, "n=%zu p=%u c=%u r=%u k=%u rs=%d st=%d nx=%s [", m.size(), s->m_pending, s->m_contacted, s->m_replied,
+           s->m_concurrency, s->m_restart ? 1 : 0, s->m_started ? 1 : 0,
+           s->m_next == s->end() ? "-" : hx(s->m_next.node()->id()).c_str());
+  std::string o = buf;
+  bool first = true;
+  for (auto& kv : m) {
+    if (!first) o += ",";
+    first = false;
+    o += hx(kv.first->id()) + "/" + sstat(kv.first.get());
+  }
+  return o + "]";
+}
+static std::string run_search_case(const std::vector<std::string>& t) {
+  if (t.size() < 2) return "BADCASE";
+  set_now(400 * 86400);
+  auto s = std::make_shared<dht::DhtSearch>(nullptr, hs(t[1]));
+  auto& m = (dht::DhtSearch::base_type&)(*s);   // C-style cast: the base is protected
+  std::string out;
+  try {
+    for (size_t i = 2; i < t.size(); i++) {
+      auto f = split(t[i], ',');
+      std::string res = "-";
+      if (f[0] == "a") {
+        sockaddr_in sin = mk_sin(std::stoul(f.at(2)), std::stoul(f.at(3)));
+        res = s->add_contact(hs(f.at(1)), reinterpret_cast<const sockaddr*>(&sin)) ? "1" : "0";
+      } else if (f[0] == "g") {
+        auto c = s->get_contact();
+        res = c == s->end() ? "none" : hx(c.node()->id());
+      } else if (f[0] == "s") {
+        const std::unique_ptr<DhtNode>* np = nullptr;
+        for (auto& kv : m) {
+          bool hit = f.at(1) == "first" || f.at(1) == "last" ? kv.first->is_active() : hx(kv.first->id()) == f.at(1);
+          if (hit) { np = &kv.first; if (f.at(1) != "last") break; }
+        }
+        if (np == nullptr) { if (f.at(1) == "first" || f.at(1) == "last") res = "noactive"; else throw internal_error("no such contact"); }
+        else s->node_status(*np, f.at(2) == "1");
+      } else if (f[0] == "t") {
+        s->trim(true);
+      } else if (f[0] == "b") {
+        res = s->start() ? "1" : "0";
+      } else res = "BADOP";
+      char h[16];
+      snprintf(h, sizeof h, "#%08x", fnv32(sdump(s.get())));
+      out += f[0] + ":" + res + h + " | ";
+    }
+    out += "END " + sdump(s.get()) + (s->complete() ? " complete" : "");
+  } catch (internal_error& e) {
+    out += "ERR:internal";
+  }
+  // the destructor asserts that nothing is pending
+  for (auto& kv : m)
+    if (kv.first->is_active()) s->node_status(kv.first, false);
+  return out;
+}
+
 int main() {
   std_setup();
   torrent::initialize_main_thread();
@@ -512,7 +574,7 @@ int main() {
   while (std::getline(std::cin, line)) {
     auto t = split_ws(line);
     try {
-      std::cout << run_case(t) << "\n";
+      std::cout << (!t.empty() && t[0] == "S" ? run_search_case(t) : run_case(t)) << "\n";
     } catch (internal_error& e) {
       std::cout << "ERR:internal " << e.what() << "\n";
     } catch (std::exception& e) {
